@@ -51,7 +51,7 @@ ASSUMPTIONS = [
 ]
 HEADER = ('From Coq Require Import List NArith ZArith Bool String Ascii '
           'PrimFloat.\nFrom T4V Require Import Base.Str Base.Scalar '
-          'C15.Model C15.Exec.\nOpen Scope string_scope.\n')
+          'C15.Model C15.Canon C15.Exec.\nOpen Scope string_scope.\n')
 
 
 
@@ -716,6 +716,29 @@ def run(res, tier, seed, proofs_ok):
                                              obs.lattice_params.items()}},
                        'theorem_or_correspondence': 'tie:deck'},
                       found_input=False)
+
+    # ---- 2b. the explicit card constructed in the model ----
+    bad, errs = common.run_case_files(
+        'c15_canon', HEADER, 'tables * table * out', 'check_canon', cases,
+        chunk=30)
+    res.obligation(f'tie:canon ({len(cases)} decks: for every card, the '
+                   'explicit card built by Canon.canon_card — word level and '
+                   'as text — parses in the model to the cell of the LIKE '
+                   'card)', not bad and not errs,
+                   f'{len(bad)} decks {errs[:1]}')
+    for idx in bad[:10]:
+        text, obs = meta[idx]
+        res.violation('correspondence',
+                      'the explicit card constructed by the model for a LIKE '
+                      'card does not parse to the same cell',
+                      {'input': {'deck': text},
+                       'theorem_or_correspondence': 'tie:canon'},
+                      found_input=False)
+    undefined, errs = common.run_case_files(
+        'c15_canondef', HEADER, 'tables * table * out', 'canon_defined',
+        cases, chunk=30)
+    res.count('canon-defined-decks', len(cases) - len(undefined))
+    res.count('canon-undefined-decks', len(undefined))
 
     # ---- 3. split of LIKE cards ----
     uniq = {}
